@@ -18,7 +18,7 @@ from vt.core.engine import Outcome, Part, short
 
 PID = "C11"
 RULE = (
-    "Hypothesis-generated per-attempt outcome sequences over {fail, succeed, no-result} (length 1-8, padded with "
+    "Hypothesis-generated per-attempt outcome sequences over {fail, succeed, no-result} (a failing attempt raises ValueError / KeyError / a custom BaseException / one of taskiq's own client errors; length 1-8, padded with "
     "failures; 60% drawn from a 'failing prefix' family so that >=2 executions are common), max_retries 0..6 given as "
     "int label, str label or middleware default, retry_on_error as bool label, str label ('True'/'true'/'TRUE'/'False'/"
     "'false') or the middleware default (on/off), both no_result_on_retry settings, typed user labels, args/kwargs, codec "
@@ -62,6 +62,9 @@ def cases() -> Any:
                              st.one_of(st.integers(-10**12, 10**12), st.text(max_size=3), st.booleans(), st.floats(allow_nan=False, allow_infinity=False, width=32)),
                              max_size=2),
         codec=st.sampled_from(["json", "json", "pickle", "jsonfmt"]),
+        # what a failing attempt raises: ordinary exceptions, a BaseException, and errors of taskiq's own client API
+        # (a task waiting for a sub-task, kicking while the broker is down, rejecting) - all of them are failures
+        fail_kind=st.sampled_from(["ValueError", "ValueError", "KeyError", "MyBase", "TaskiqResultTimeoutError", "SendTaskError", "TaskRejectedError", "ResultGetError"]),
         # a second call of the same task handled by the same middleware instance (own labels, own outcome sequence)
         second=st.one_of(st.none(), st.none(), st.fixed_dictionaries(dict(
             outs=st.one_of(prefix, free),
@@ -75,6 +78,22 @@ def parts(tier: str) -> List[Part]:
     if tier == "thorough":
         return [Part("histories", "given", shards=16, examples=8000, strategy=cases, soft_deadline_s=1500)]
     return [Part("histories", "given", shards=8, examples=800, strategy=cases, soft_deadline_s=120)]
+
+
+class MyBase(BaseException):
+    pass
+
+
+def make_failure(kind: str) -> BaseException:
+    import taskiq.exceptions as te
+
+    if kind == "TaskiqResultTimeoutError":
+        return te.TaskiqResultTimeoutError(timeout=1.5)
+    if kind == "MyBase":
+        return MyBase("f")
+    if hasattr(te, kind):
+        return getattr(te, kind)()
+    return {"ValueError": ValueError, "KeyError": KeyError}[kind]("f")
 
 
 def model(c: Dict[str, Any]) -> Any:
@@ -137,7 +156,7 @@ def run_case(c: Dict[str, Any]) -> Outcome:
             runs[tid] = n + 1
             seen.append((tid, [a, b_, c_], {"z": z}))
             if o == "fail":
-                raise ValueError("f")
+                raise make_failure(c.get("fail_kind", "ValueError"))
             if o == "nores":
                 raise NoResultError()
             return runs[tid]
